@@ -524,6 +524,7 @@ func genOverlay(p *packages.Package, con *Contracts, L *Loaded) (string, []strin
 					seen[v.Name] = true
 					ps = append(ps, v.Name+" "+strings.Replace(g.typ(v.Type), "...", "[]", 1))
 				}
+				ps = append(ps, "__idx int") // number of elements a range loop has finished
 				rt := "bool"
 				if cl.Kind == "decreases" {
 					rt = "uint64"
